@@ -59,4 +59,5 @@ SIGS = {
     'api_nndist_ham': (['nat', 'str', STRS], 'nat'),
     'api_tcrdist_nn': (['nat', 'nat', 'bool', 'Z', 'nat', 'nat', 'nat', 'nat', L(T('str', 'str', 'str', 'str'))], L(T('nat', 'nat', 'Z'))),
     'api_vtable_labels': (['bool'], STRS),
+    'api_coo_dense': (['nat', 'nat', L(T('nat', 'nat', 'Z'))], L(L('Z'))),
 }
